@@ -5,7 +5,7 @@ import datetime
 from typing import Any, Dict, List, Optional
 
 from . import sqlparse as A
-from .exprs import AMBIG, SchemaError, Scope, compile_expr, names_in
+from .exprs import AMBIG, SchemaError, Scope, compile_expr, has_aggregate, names_in
 from .sqlparse import Unsupported
 from .storage import Table, undo_to
 from .values import SQLError, coerce, sort_key, truth
@@ -114,15 +114,22 @@ class DMLMixin:
             else:
                 sel = ins.select
                 buffered = self._select_reads_table(sel, t.name, X)
-                if buffered and _has_uvar_assign(sel):
-                    raise Unsupported('INSERT ... SELECT assigning user variables while reading the target table outside a '
-                                      'derived table (MySQL buffers the result; per-row @var semantics differ)', ins.text or '')
+                core = sel
+                while isinstance(core, A.With):
+                    core = core.body
+                plain = isinstance(core, A.Select)
+                if _has_uvar_assign(sel) and (buffered or not plain or core.order_by or core.distinct or core.limit is not None):
+                    raise Unsupported('INSERT ... SELECT assigning user variables in a select that MySQL buffers or sorts (target table '
+                                      'read directly, UNION, ORDER BY, DISTINCT or LIMIT): per-row @var semantics differ', ins.text or '')
+                # columns of the SELECT's tables are visible to ON DUPLICATE KEY UPDATE only for a plain, ungrouped SELECT
+                src_visible = plain and not core.group_by and not core.distinct and not any(
+                    has_aggregate(e) for e, _, _ in core.items)
                 ncols = len(cols)
 
                 def sink(vals, rm):
                     if len(vals) != ncols:
                         raise SQLError(1136, "Column count doesn't match value count at row 1", '21S01')
-                    src_scope = X.scope if rm is not None else None
+                    src_scope = X.scope if (rm is not None and src_visible) else None
                     saved_rows = None
                     if src_scope is not None:
                         saved_rows = src_scope.rows
@@ -213,7 +220,7 @@ class DMLMixin:
         sc = Scope(src_scope)
         sc.add_source(t.name, t.cols, t)
         sc.rows = {t.name: work}
-        if src_scope is not None and not getattr(ins, '_ambig_checked', False):
+        if src_scope is not None:
             names: List[Any] = []
             names_in([e for _, e in ins.odku], names)
             for nm in names:
